@@ -62,6 +62,21 @@ func (fe *FnEnc) instr(ins ssa.Instruction) {
 		fe.vals[x] = fe.wrapTerm(s.name("fv", s.sortOf(ft), t), ft)
 	case *ssa.FieldAddr:
 		v := fe.val(x.X)
+		if len(v.Alts) > 0 {
+			fe.panicCheck("nilderef", not(fe.altsNil(v)), x.Pos())
+			out := Val{T: x.Type()}
+			for _, al := range v.Alts {
+				if al.V.Term == "0" && al.V.Addr == nil {
+					continue
+				}
+				a := fe.ptrAddr(al.V)
+				na := a.with(Step{Kind: stField, Field: x.Field, T: a.elemType()})
+				na.Nil = "false"
+				out.Alts = append(out.Alts, AltVal{Cond: al.Cond, V: Val{T: x.Type(), Addr: na}})
+			}
+			fe.vals[x] = out
+			break
+		}
 		a := fe.ptrAddr(v)
 		fe.panicCheck("nilderef", not(a.Nil), x.Pos())
 		na := a.with(Step{Kind: stField, Field: x.Field, T: a.elemType()})
@@ -495,6 +510,12 @@ func (fe *FnEnc) binopBV(op token.Token, at, bt string, w int, signed bool, tb t
 }
 
 func (fe *FnEnc) equalVals(a, b Val, t types.Type) string {
+	if len(a.Alts) > 0 && b.Term == "0" {
+		return fe.altsNil(a)
+	}
+	if len(b.Alts) > 0 && a.Term == "0" {
+		return fe.altsNil(b)
+	}
 	// pointers with interior addresses
 	if _, ok := types.Unalias(t).Underlying().(*types.Pointer); ok {
 		if a.Addr != nil && a.Term == "" && (len(a.Addr.Steps) > 0 || a.Addr.Root != rootHeap) {
@@ -585,6 +606,29 @@ func (fe *FnEnc) unop(x *ssa.UnOp) Val {
 // loadVal loads the value of type t at pointer v.
 func (fe *FnEnc) loadVal(p Val, t types.Type, pos token.Pos, src ssa.Value) Val {
 	s := fe.s
+	if len(p.Alts) > 0 {
+		fe.panicCheck("nilderef", not(fe.altsNil(p)), pos)
+		srt := s.sortOf(t)
+		term := ""
+		for i := len(p.Alts) - 1; i >= 0; i-- {
+			al := p.Alts[i]
+			if al.V.Term == "0" && al.V.Addr == nil {
+				continue
+			}
+			lv := s.load(fe.mem, fe.ptrAddr(al.V))
+			if term == "" {
+				term = lv
+			} else {
+				term = ite(al.Cond, lv, term)
+			}
+		}
+		if term == "" {
+			return fe.freshVal("ld", t)
+		}
+		n := s.name("ld", srt, term)
+		s.assumeRange(t, n)
+		return fe.wrapTerm(n, t)
+	}
 	a := fe.ptrAddr(p)
 	fe.panicCheck("nilderef", not(a.Nil), pos)
 	fe.guardCheck(a, false, pos)
